@@ -104,6 +104,15 @@ Proof.
   - apply forallb_map_seq. intros j _. reflexivity.
 Qed.
 
+Lemma wf_gen_net n e : wf_net (gen_net n e) = true.
+Proof.
+  apply wf_net_intro; [|reflexivity]. cbn [gen_net n_procs n_once]. apply forallb_app'.
+  - cbn [forallb]. rewrite wf_cons_init. reflexivity.
+  - apply forallb_map_seq. intros j _. destruct e; reflexivity.
+Qed.
+
+Lemma wf_range_net : wf_net range_net = true. Proof. reflexivity. Qed.
+
 Lemma wf_split_net n : wf_net (split_net n) = true.
 Proof.
   apply wf_net_intro; [|reflexivity]. cbn [split_net n_procs n_once]. apply forallb_app'; [reflexivity|].
@@ -169,6 +178,14 @@ Proof.
   - apply forallb_map_seq. intros j _. reflexivity.
 Qed.
 
+Lemma su1_gen_net n e : static_under (gen_net n e) 1 = true.
+Proof.
+  unfold static_under. cbn [gen_net n_procs]. apply forallb_app'.
+  - cbn [forallb usr bg d_prog]. change (forallb (under_instr (gen_net n e) 1) (cons_init_prog n 0) && true = true).
+    rewrite under_cons_init; reflexivity.
+  - apply forallb_map_seq. intros j _. destruct e; reflexivity.
+Qed.
+
 Lemma su1_buffer_net : static_under buffer_net 1 = true. Proof. reflexivity. Qed.
 Lemma su1_pump_net : static_under pump_net 1 = true. Proof. reflexivity. Qed.
 
@@ -230,6 +247,10 @@ Lemma ginv_chan_init c l : ginv chan_net (chan_init c l).
 Proof. apply ginv_init. cbn. repeat (constructor; [iok|]). constructor. Qed.
 Lemma ginv_fanin_init n f c l : ginv (fanin_net n f) (fanin_init n c l).
 Proof. apply ginv_init. cbn [fanin_net n_procs]. repeat (constructor; [iok|]). apply Forall2_idles. intros; iok. Qed.
+Lemma ginv_gen_init n e l : ginv (gen_net n e) (gen_init n l).
+Proof. apply ginv_init. cbn [gen_net n_procs]. repeat (constructor; [iok|]). apply Forall2_idles. intros; iok. Qed.
+Lemma ginv_range_init c l : ginv range_net (range_init c l).
+Proof. apply ginv_init. cbn. repeat (constructor; [iok|]). constructor. Qed.
 Lemma ginv_split_init n l : ginv (split_net n) (split_init n l).
 Proof. apply ginv_init. cbn [split_net n_procs]. repeat (constructor; [iok|]). apply Forall2_map_seq. intros; iok. Qed.
 
@@ -254,13 +275,13 @@ Ltac cu1 := apply ctx_under_init; repeat (constructor; [first [left; reflexivity
 Inductive construct :=
 | KMap (n : nat) | KProcessParallel (n : nat) | KParallelBuffer (n : nat) | KBuffer (cap : nat)
 | KPump                      (* Chain, MergeSlices, MergeSliceIterators, dt.Map, adt.Map *)
-| KBufferedChannel (cap : nat) | KMerge (n : nat) | KGenerate (n : nat) | KSplit (n : nat).
+| KBufferedChannel (cap : nat) | KMerge (n : nat) | KGenerate (n : nat) (e : gend) | KSplit (n : nat).
 
 Definition net_of (K : construct) : net :=
   match K with
   | KMap n => map_net n | KProcessParallel n => pp_net n | KParallelBuffer n => pbuf_net n | KBuffer _ => buffer_net
   | KPump => pump_net | KBufferedChannel _ => chan_net | KMerge n => fanin_net n (fun j => j)
-  | KGenerate n => fanin_net n (fun _ => 0) | KSplit n => split_net n
+  | KGenerate n e => gen_net n e | KSplit n => split_net n
   end.
 
 (* srcs: one input list, except for MergeIterators (one per source) *)
@@ -269,7 +290,7 @@ Definition init_of (K : construct) (srcs : list (list Z)) : state :=
   | KMap n => map_init n (concat srcs) | KProcessParallel n => pp_init n (concat srcs)
   | KParallelBuffer n => pbuf_init n (concat srcs) | KBuffer c => buffer_init c (concat srcs)
   | KPump => pump_init (concat srcs) | KBufferedChannel c => chan_init c (concat srcs)
-  | KMerge n => fanin_init n 0 srcs | KGenerate n => fanin_init n (2 * n + 1) [concat srcs]
+  | KMerge n => fanin_init n 0 srcs | KGenerate n _ => gen_init n (concat srcs)
   | KSplit n => split_init n (concat srcs)
   end.
 
@@ -283,13 +304,13 @@ Definition close_root (K : construct) : option cid :=
 Lemma wf_net_of K : wf_net (net_of K) = true.
 Proof.
   destruct K; cbn [net_of]; auto using wf_map_net, wf_pp_net, wf_pbuf_net, wf_buffer_net, wf_pump_net, wf_chan_net,
-    wf_fanin_net, wf_split_net.
+    wf_fanin_net, wf_gen_net, wf_split_net.
 Qed.
 
 Lemma ginv_init_of K srcs : ginv (net_of K) (init_of K srcs).
 Proof.
   destruct K; cbn [net_of init_of]; auto using ginv_map_init, ginv_pp_init, ginv_pbuf_init, ginv_buffer_init, ginv_pump_init,
-    ginv_chan_init, ginv_fanin_init, ginv_split_init.
+    ginv_chan_init, ginv_fanin_init, ginv_gen_init, ginv_split_init.
 Qed.
 
 Lemma desc0_net_of K c : n_desc (net_of K) 0 c = true.
@@ -298,13 +319,13 @@ Proof. destruct K; cbn; auto using std_desc_0, flat_desc_0. Qed.
 Lemma su1_net_of K : close_root K = Some 1 -> static_under (net_of K) 1 = true.
 Proof.
   destruct K; cbn [close_root net_of]; intros H; try discriminate;
-    auto using su1_map_net, su1_pbuf_net, su1_buffer_net, su1_pump_net, su1_fanin_net.
+    auto using su1_map_net, su1_pbuf_net, su1_buffer_net, su1_pump_net, su1_fanin_net, su1_gen_net.
 Qed.
 
 Lemma cu1_init_of K srcs : close_root K = Some 1 -> ctx_under (net_of K) 1 (init_of K srcs).
 Proof.
   destruct K; cbn [close_root net_of init_of]; intros H; try discriminate;
-    unfold map_init, pbuf_init, buffer_init, pump_init, fanin_init; cu1.
+    unfold map_init, pbuf_init, buffer_init, pump_init, gen_init, fanin_init; cu1.
 Qed.
 
 Definition all_done (s : state) : Prop :=
@@ -491,7 +512,7 @@ Proof. apply hands_none. intros pr [<-|[<-|[<-|H]]]; auto. unfold idles in H. ap
 
 Lemma tokens_init_of K srcs : tokens (init_of K srcs) = concat srcs.
 Proof.
-  destruct K; cbn [init_of]; unfold map_init, pp_init, pbuf_init, buffer_init, pump_init, chan_init, fanin_init, split_init;
+  destruct K; cbn [init_of]; unfold map_init, pp_init, pbuf_init, buffer_init, pump_init, chan_init, gen_init, fanin_init, split_init;
     rewrite tokens_mk_init; try (cbn [concat]; now rewrite app_nil_r); try reflexivity;
     try apply hands_running_idles.
   apply hands_none. intros pr [<-|[<-|[<-|H]]]; auto. apply in_map_iff in H as (j & <- & _). reflexivity.
